@@ -137,6 +137,10 @@ ARITY = [
     ('m3-1', 'print(Holder(1, 1.5, "s", Base(1)).m3(1))', False), ('m3-2', 'print(Holder(1, 1.5, "s", Base(1)).m3(1, 2))', True),
     ('m3-3', 'print(Holder(1, 1.5, "s", Base(1)).m3(1, 2, "x"))', True), ('m3-4', 'print(Holder(1, 1.5, "s", Base(1)).m3(1, 2, "x", 4))', False),
     ('inherited-method-0', 'print(Child(1, 2).get(1))', False), ('inherited-method-ok', 'print(Child(1, 2).get())', True),
+    # the receiver itself (the same expression) as a further argument
+    ('receiver-as-int-argument', 'def rh := Holder(1, 1.5, "s", Base(1))\nprint(rh.mi(rh))', False), ('receiver-as-base-argument', 'def rh := Holder(1, 1.5, "s", Base(1))\nprint(rh.mb(rh))', False),
+    ('receiver-as-second-argument', 'def rh := Holder(1, 1.5, "s", Base(1))\nprint(rh.m2(1, rh))', False), ('receiver-new-as-argument', 'print(Base(1).get(Base(1)))', False),
+    ('child-receiver-as-base-argument-ok', 'def rc := Child(1, 2)\nprint(fb(rc) + rc.more())', True),
     ('inherited-2-levels-ok', 'print(GrandChild(1, 2, 3).get())', True), ('inherited-2-levels-too-many', 'print(GrandChild(1, 2, 3).get(1))', False),
     ('inherited-1-of-2-levels-ok', 'print(GrandChild(1, 2, 3).more())', True), ('own-method-of-grandchild', 'print(GrandChild(1, 2, 3).most())', True),
     ('inherited-2-levels-through-variable', 'print(fb(GrandChild(1, 2, 3)) + GrandChild(4, 5, 6).get())', True),
@@ -234,7 +238,7 @@ def c05_cells():
                                     {'use': uname, 'expected_type': ety, 'filler_type': fty, 'form': 'var+' + rname, 'ctx': ctx, 'category': cat, 'rule': 'scope'}))
     for aname, stmt, conforms in ARITY:
         for ctx in CONTEXTS:
-            out.append((f'arity:{aname}@{ctx}', f'arity:{"ok" if conforms else "bad"}:{ctx}', wrap([stmt], ctx), conforms, {'use': 'arity', 'ctx': ctx, 'rule': 'arity', 'stmt': stmt}))
+            out.append((f'arity:{aname}@{ctx}', f'arity:{"ok" if conforms else "bad"}:{ctx}', wrap(stmt.split('\n'), ctx), conforms, {'use': 'arity', 'ctx': ctx, 'rule': 'arity', 'stmt': stmt}))
     # a diamond: the same ancestor along two paths (and a parent that is itself an ancestor's child)
     DIAMOND_TOP = ['class DLeft(bx: Int): Base(bx)', '    def left(self) -> Int => 1', 'class DRight(bx: Int): Base(bx)', '    def right(self) -> Int => 2',
                    'class DJoin(bx: Int): DLeft(bx), DRight(bx)', '    def joined(self) -> Int => 3', 'class DDeep(bx: Int): DJoin(bx), DLeft(bx)', '    def deep(self) -> Int => 4']
@@ -280,6 +284,11 @@ def c05_cells():
         'pre+match-arm-tail': ['def pre: Int := k + 1', 'match pre', '    1 =>', '        @R@', '    _ =>', '        @V@'],
         'nested-if-tail': ['if k > 0 then', '    if k > 1 then', '        @R@', '    else', '        @V@', 'else', '    @V@'],
         'pre+return': ['def pre: Int := k + 1', 'print(pre)', 'return @R@'],
+        # the value of the function is a handled call: the arms give the value when the call raises (only for functions returning what the call returns)
+        'handle-tail': ['boomf() handle', '    zerr: Boom => @R@'],
+        'handle-block-arm-tail': ['boomf() handle', '    zerr: Boom =>', '        print("h")', '        @R@'],
+        'pre+handle-tail': ['def pre: Int := k + 1', 'boomf() handle', '    zerr: Boom => @R@'],
+        'def-handle-then-tail': ['def hv := boomf() handle', '    zerr: Boom => 0', '@R@'],
     }
     VALID = {'Int': '7', 'Float': '7.5', 'Str': '"v"', 'Bool': 'False', 'Base': 'Base(7)', 'Child': 'Child(7, 8)'}
     for rty in ('Int', 'Float', 'Str', 'Bool', 'Base', 'Child'):
@@ -288,6 +297,8 @@ def c05_cells():
             conforms = is_sub(fty, rty)
             cat = category(fty, rty)
             for rc, lines in RET_CTX.items():
+                if 'handle' in rc and rty != 'Int':
+                    continue        # boomf() itself yields an Int (a Float function would meet the listed arms-of-different-subtypes finding)
                 body = [l.replace('@R@', expr).replace('@V@', VALID[rty]) for l in lines]
                 for holder in ('fun', 'method'):
                     if holder == 'fun':
@@ -818,6 +829,28 @@ def c09_cells():
         ('tuple-def-later', ['@U@', 'def (x, xo) := (1, 2)'], False),
         ('self-reference-in-init', ['def x := x + 1'], False),
     ]
+    # every expression position reads the name: further use forms on the placements that are not touched by a listed finding
+    MORE_USES = {'range-step': 'for zr in 0 .. 4 .. @X@ do print(zr)', 'range-bound': 'for zr in 0 .. @X@ do print(zr)', 'range-start-inclusive': 'for zr in @X@ ..= 3 do print(zr)',
+                 'slice-bound': 'print([1, 2, 3, 4][0 :: @X@])', 'index': 'print([1, 2, 3][@X@])', 'while-condition': 'while @X@ > 5 do print("w")', 'match-subject': 'match @X@\n    1 => print("a")\n    _ => print("b")',
+                 'right-operand': 'print(1 + @X@)', 'list-element': 'def ul := [@X@, 2]', 'tuple-element': 'def ut := (@X@, 2)', 'nested-call-argument': 'print(fi(fi(@X@)))', 'interpolated-operand': 'print("v{@X@ + 1}")',
+                 'reassigned-value': 'def ur := 0\nur := @X@', 'augmented-value': 'def ur := 0\nur += @X@', 'conditional-branch': 'def uz: Int := if 1 < 2 then @X@ else 0', 'conditional-condition': 'def uz: Int := if @X@ > 1 then 1 else 0',
+                 'comparison': 'print(@X@ = 1)', 'unary': 'def un: Int := -@X@', 'default-operand': 'def ud: Int := None ? @X@', 'raise-argument-free-handle-value': 'def uh := boomf() handle\n    zerr: Boom => @X@',
+                 'comprehension-source-bound': 'def uc := [zc | zc in 0 .. @X@]', 'comprehension-condition': 'def uc := [zc | zc in 0 .. 3, zc < @X@]', 'dict-value': 'def ud := {1 => @X@}', 'set-element': 'def us := {@X@, 2}'}
+    MORE_PLACEMENTS = ('never', 'before', 'later-same-block', 'only-then', 'only-then-not-taken', 'for-variable-after', 'comprehension-var-after', 'one-match-arm', 'loop-body-then-after')
+    for pname, lines, must in PLACEMENTS:
+        if pname not in MORE_PLACEMENTS:
+            continue
+        for uname, uform in MORE_USES.items():
+            body = []
+            for l in lines:
+                if '@U@' in l:
+                    indent = l[:len(l) - len(l.lstrip(' '))]
+                    body += [indent + x for x in uform.replace('@X@', 'x').split('\n')]
+                else:
+                    body.append(l)
+            for ctx in ('top', 'fun', 'loop'):
+                src = wrap(body, ctx).replace(PRELUDE, P)
+                out.append((f'{pname}:{uname}@{ctx}', f'{pname}:{uname}:{ctx}', src, must, {'placement': pname, 'use': uname, 'ctx': ctx}))
     for pname, lines, must in PLACEMENTS:
         for uname, uform in USE_FORMS.items():
             if '@U@' not in '\n'.join(lines) and uname != 'print':
@@ -862,6 +895,12 @@ def c09_cells():
         ('child-own-field-read-before-assign', ['print(self.extra)', 'self.extra := 2', 'self.count := 3'], False),
         ('child-own-field-assign-then-read', ['self.extra := 2', 'self.count := 3', 'print(self.extra)'], True),
     ]
+    # a field that holds an object: assigning THROUGH it does not assign it
+    THRU = [('assign-through-unassigned-field', ['self.inner.val := a', 'self.inner := Inner(a)'], False), ('assign-through-never-assigned-field', ['self.inner.val := a'], False),
+            ('assign-field-then-through', ['self.inner := Inner(a)', 'self.inner.val := a + 1'], True), ('read-through-unassigned-field', ['print(self.inner.val)', 'self.inner := Inner(a)'], False)]
+    for cname, body, must in THRU:
+        src = (P + '\nclass Inner(def val: Int)\n\nclass Outer\n    def inner: Inner\n    def __init__(self, a: Int) =>\n' + '\n'.join(ind(body, 2)) + '\n\ndef po := Outer(3)\nprint("end")\n')
+        out.append((f'ctor-through:{cname}', f'ctor-through:{cname}', src, must, {'placement': 'ctor-through:' + cname, 'ctx': 'ctor'}))
     for cname, body, must in INH:
         src = (P + '\nclass PBase\n    def count: Int\n    def __init__(self) =>\n        self.count := 1\n\nclass PChild: PBase\n    def count: Int\n    def extra: Int\n'
                '    def __init__(self) =>\n' + '\n'.join(ind(body if 'extra' in ' '.join(body) else body + ['self.extra := 0'], 2)) + '\n\ndef po := PChild()\nprint("end")\n')
